@@ -643,7 +643,24 @@ def run_history(pup, model, seed, case, max_len=200):
     pup.lossy_rng = r_loss if r_loss.random() < 0.35 else None
     if pup.lossy_rng is not None:
         res.count("o1_lossy_histories")
+    r_stop = random.Random("c07-localstop/%s" % seed)
+    local_stops = r_stop.random() < 0.3
+    stopped = set()
+    p_is_client = pup.me_name == "client"
     for step in range(1, n_target + 1):
+        if local_stops and r_stop.random() < 0.1:
+            # R's own application loses interest in a stream P is still sending on (stop_stream -> STOP_SENDING): what P
+            # keeps sending within the advertised limits is as legal as before and is charged once
+            cands = [sid for sid, st in sorted(model.streams.items())
+                     if sid not in stopped and st.final is None and not st.reset and (not (sid & 2) or (sid & 1) == (0 if p_is_client else 1))]
+            if cands:
+                sid = r_stop.choice(cands)
+                stopped.add(sid)
+                try:
+                    pup.call("stop_stream", sid, 9)
+                    res.count("o1_local_stop_stream_calls")
+                except Exception as exc:
+                    res.count("obs_local_stop_stream_raised_" + type(getattr(exc, "exc", exc)).__name__)
         boundary = step >= kill_at and rng.random() < 0.6
         if boundary and rng.random() < 0.5:
             kill_at = step + rng.randrange(1, 30)  # survived probes: keep going for a while
